@@ -324,6 +324,12 @@ def _step(S, op, what):
     if name in ("c_list6", "c_arr6", "c_arr61"):
         v = _f6(op["v"])
         arg = [float(x) for x in v] if name == "c_list6" else _as_shape(v, "col" if name == "c_arr61" else "flat")
+        if op.get("whole"):
+            # a pose typed by hand in whole numbers: a list of Python ints / an integer-typed array.  The object
+            # built from it is an ordinary transform (later fractional writes are stored as written)
+            v = np.round(v)
+            arg = [int(x) for x in v] if name == "c_list6" else _as_shape(v, "col" if name == "c_arr61" else "flat").astype(np.int64)
+            S.ctx.label("constructed from whole numbers (int-typed)")
         if name != "c_list6":
             S.arrs.append(arg)
         return _new(S, sut(tm, arg)), (vec, v, [])
@@ -344,6 +350,10 @@ def _step(S, op, what):
     if name in ("c_list3", "c_arr3", "c_arr31"):
         w = np.array(op["w"], dtype=float).reshape(3)
         arg = [float(x) for x in w] if name == "c_list3" else _as_shape(w, "col" if name == "c_arr31" else "flat")
+        if op.get("whole"):
+            w = np.round(w)
+            arg = [int(x) for x in w] if name == "c_list3" else _as_shape(w, "col" if name == "c_arr31" else "flat").astype(np.int64)
+            S.ctx.label("constructed from whole numbers (int-typed)")
         return _new(S, sut(tm, arg)), (vec, np.concatenate([np.zeros(3), w]), [])
     if name in ("c_quat_list", "c_quat_arr"):
         v = _f6(op["v"])
@@ -847,6 +857,7 @@ _FORMS3 = st.sampled_from(["list", "flat", "col", "col"])
 _I6 = st.integers(0, 5)
 _NEG = st.sampled_from([False, False, False, True])      # index / slice bounds written as negative numbers
 _SETNAME = st.sampled_from(["set", "setitem"])
+_WHOLE = st.sampled_from([False, False, False, True])
 
 
 @st.composite
@@ -865,8 +876,8 @@ def _setone(draw):
 
 def _constructors():
     return st.one_of(
-        _fd("c_list6", v=_v6()), _fd("c_arr6", v=_v6()), _fd("c_arr61", v=_v6()),
-        _fd("c_list3", w=_w3()), _fd("c_arr3", w=_w3()), _fd("c_arr31", w=_w3()),
+        _fd("c_list6", v=_v6(), whole=_WHOLE), _fd("c_arr6", v=_v6(), whole=_WHOLE), _fd("c_arr61", v=_v6(), whole=_WHOLE),
+        _fd("c_list3", w=_w3(), whole=_WHOLE), _fd("c_arr3", w=_w3(), whole=_WHOLE), _fd("c_arr31", w=_w3(), whole=_WHOLE),
         _fd("c_quat_list", v=_v6(), s=_QS), _fd("c_quat_arr", v=_v6(), s=_QS),
         _fd("c_rpy_list3", e=_w3()), _fd("c_rpy_arr3", e=_w3()),
         _fd("c_rpy_list6", v=_v6()), _fd("c_rpy_arr6", v=_v6()),
